@@ -175,6 +175,20 @@ def model : Drv St where
           | none => s.plans.map (planRes s)
         ({ s with cache := some res }, runModel s n res)
       | _, _ => (s, ["bad-op"])
+    | ["sweep", n, w] =>
+      -- a large sweep, observed in aggregate: by `isolation` every machine ends as it does alone, so
+      -- the n results are those of the plans' alone runs, one per request, in request order
+      match n.toNat?, w.toNat? with
+      | some n, some _ =>
+        if s.plans.isEmpty || !hasItem s.ds then (s, ["bad-op"]) else
+        let res := match s.cache with
+          | some r => r
+          | none => s.plans.map (planRes s)
+        let whole := s.ds.map fun m => if m.marker then none else some m.id
+        let allSeen := res.all fun r => r.lazyS.eng.mv.seen == whole && r.eagerS.eng.mv.seen == whole
+        ({ s with cache := some res },
+          [ s!"sweep_n {n}", "sweep_ids 1", "sweep_seen " ++ fmtBool allSeen ])
+      | _, _ => (s, ["bad-op"])
     | _ => (s, ["bad-op"])
 
 /-- The property text, as observations: for each of the `n` backtests. -/
@@ -209,6 +223,14 @@ def spec : Drv St where
         if s.plans.isEmpty || s.ds.isEmpty then (s, ["bad-op"])
         else if !hasItem s.ds then (s, ["panic"])  -- documented precondition: at least one Item
         else (s, runSpec s n)
+      | _, _ => (s, ["bad-op"])
+    | ["sweep", n, w] =>
+      -- the property ranges over any number of concurrent backtests: each request gets its own
+      -- summary (one per request, in request order) and consumes the whole dataset
+      match n.toNat?, w.toNat? with
+      | some n, some _ =>
+        if s.plans.isEmpty || !hasItem s.ds then (s, ["bad-op"])
+        else (s, [ s!"sweep_n {n}", "sweep_ids 1", "sweep_seen 1" ])
       | _, _ => (s, ["bad-op"])
     | _ => (s, ["bad-op"])
 
